@@ -55,7 +55,8 @@ def refCase (req : Lean.Json) : Lean.Json :=
     let answers := (jarr req "answered").toList.map fun l => (asArr l).toList.map asStr
     let out := answers.map fun ans =>
       let a : Answered := fun i => ans.contains i
-      Lean.Json.mkObj [("done", Lean.Json.bool (rw.done a)), ("opens", Lean.Json.arr ((rw.opens a).map Lean.Json.str).toArray)]
+      Lean.Json.mkObj [("done", Lean.Json.bool (rw.done a)), ("opens", Lean.Json.arr ((rw.opens a).map Lean.Json.str).toArray),
+        ("states", Lean.Json.arr ((rw.states a).map fun (i, st) => Lean.Json.arr #[Lean.Json.str i, Lean.Json.str st]).toArray)]
     Lean.Json.mkObj [("in_fragment", Lean.Json.bool true), ("points", Lean.Json.arr out.toArray)]
 
 end Acts.Driver
